@@ -1,10 +1,13 @@
 #!/bin/bash
 # Runs the thorough tier of every claimed property, one after the other (each uses all cores).
-# usage: thorough_all.sh [seed]   (set VERIF_REPO to sweep a snapshot of fastgo in the background)
+# usage: thorough_all.sh [seed] [property ...]   (set VERIF_REPO to sweep a snapshot of fastgo in the background)
 cd "$(dirname "$0")" || exit 2
 export VERIF_SEED=${1:-1}
 rc=0
-for p in $(python3 -c "import json;print(' '.join(c['property_id'] for c in json.load(open('MANIFEST.json'))['checks']))"); do
+shift
+PROPS="$*"
+[ -z "$PROPS" ] && PROPS=$(python3 -c "import json;print(' '.join(c['property_id'] for c in json.load(open('MANIFEST.json'))['checks']))")
+for p in $PROPS; do
   echo "=== $p thorough seed=$VERIF_SEED $(date +%T)"
   ./check.sh $p thorough | grep -v "^minimize" | grep -E -A4 "^VIOLATION|^KNOWN|thorough:|infrastructure|note:" | cut -c1-400
   c=${PIPESTATUS[0]}
